@@ -42,6 +42,19 @@ impl C07 {
             return;
         }
         out.count("c07.ledger_comparisons");
+        // the UnbondRequests query reports what is stored, for every address that has an entry (not only the known ones)
+        let mut q = c.post.requests.clone();
+        for v in q.values_mut() {
+            v.sort();
+        }
+        if c.post.history != c.post.raw_history {
+            out.violation(P, "queries_faithful", format!("AllHistory answers differ from the stored history: {:?} vs {:?}", c.post.history.iter().filter(|h| !c.post.raw_history.contains(h)).collect::<Vec<_>>(), c.post.raw_history.iter().filter(|h| !c.post.history.contains(h)).collect::<Vec<_>>()));
+            return;
+        }
+        if q != c.post.raw_requests {
+            out.violation(P, "queries_faithful", format!("UnbondRequests answers {:?} differ from the stored wait list {:?}", q, c.post.raw_requests));
+            return;
+        }
         // per batch sums
         let mut sums: BTreeMap<u64, (u128, u128)> = BTreeMap::new();
         for ((_, b), (x, y)) in actual.iter() {
